@@ -335,7 +335,9 @@ def immutable_views(r, l, w):
             r.violation(f"built-views:{cls.__name__}:{','.join(diff)}", {"pairs": list(l), "cls": cls.__name__}, f"{cls.__name__}({l}) views {diff} differ: {[va[k] for k in diff]} vs {[rv[k] for k in diff]}")
         # the same pairs handed over in other shapes, among them iterables that can be read only once
         shapes = {"tuple": lambda: tuple(l), "generator": lambda: (p_ for p_ in l), "iterator": lambda: iter(list(l)), "zip": lambda: zip([k for k, _ in l], [v for _, v in l]),
-                  "map": lambda: map(tuple, [list(p_) for p_ in l]), "another-mapping": lambda: MultiMapping(list(l)), "mutable-mapping": lambda: MutableMultiMapping(list(l))}
+                  "map": lambda: map(tuple, [list(p_) for p_ in l]),
+                  # keys and values that are equal strings but new objects (what a parser, a decoder, a database row hands over), not the literals of this file
+                  "runtime-strings": lambda: [(k.encode("utf-8").decode("utf-8"), v if v is None else v.encode("utf-8").decode("utf-8")) for k, v in l], "another-mapping": lambda: MultiMapping(list(l)), "mutable-mapping": lambda: MutableMultiMapping(list(l))}
         if len({k for k, _ in l}) == len(l):
             shapes["dict"] = lambda: dict(l)
             shapes["dict-items"] = lambda: dict(l).items()
